@@ -292,8 +292,14 @@ func (o *Oracle) judgeMediation(e *Exchange, pol *Policy, path string) {
 				continue
 			}
 			for _, c := range o.w.Log.Ended(0, L2) {
-				if endpointOf(c.Path) != ep || c.At > e.Done || c.Done < e.At || c.Seq > e.Seq {
+				// (a call of the overlapping partner in this very step: its network exchange may be over while the
+				// execution it belongs to is still in progress — the partner may be held between two statements —
+				// and joining that execution is what coalescing is for)
+				if endpointOf(c.Path) != ep || c.At > e.Done || c.Seq > e.Seq || c.Step != e.Step {
 					continue
+				}
+				if (ep == "validate" && sv.S.AccessToken == "") || (ep == "refresh" && sv.S.RefreshToken == "") {
+					continue // an empty token identifies no call
 				}
 				if (ep == "validate" && c.ReqHdr.Get("X-Access-Token") == sv.S.AccessToken) ||
 					(ep == "refresh" && (strings.Contains(string(c.ReqBody), "refresh_token="+url.QueryEscape(sv.S.RefreshToken)) || strings.Contains(string(c.ReqBody), "refresh_token="+sv.S.RefreshToken))) {
@@ -479,8 +485,8 @@ func (o *Oracle) judgeMediation(e *Exchange, pol *Policy, path string) {
 // judgeRefusal: the request was not granted. Safety for denied/failed checks
 // (cookie cleared) and the positive assertions live here.
 func (o *Oracle) judgeRefusal(e *Exchange, pol *Policy, sv *sessionVerdict, skip bool) {
-	if e.Status == 0 {
-		return
+	if e.Status == 0 || e.Status == 301 {
+		return // (301 is the router's path-cleaning redirect: the request never reached authentication)
 	}
 	cfg := o.w.Cfg
 	at, done := o.abs(e.At), o.abs(e.Done)
